@@ -540,14 +540,17 @@ pub fn x86_case(modes: Vec<Mode>) -> impl Strategy<Value = X86Case> {
         2 => (log_uniform(47), any::<bool>()).prop_map(|(m, n)| if n { -(m as i64) } else { m as i64 }),
         1 => any::<i64>(),
     ];
-    (func, jd, fd, any::<bool>(), proptest::sample::select(weighted(modes)), any::<u64>()).prop_map(|(func, jd, fd, page, mode, salt)| {
+    // one case in five: the fake at an *absolute* low address (bit 31 set or clear), whatever the
+    // trampoline's position (32-bit immediates and sign extension live here)
+    let abs_fake = prop::option::weighted(0.2, prop_oneof![2 => 0x8000_0000u64..=0xFFFF_FFFF, 1 => 0x1000u64..0x8000_0000, 1 => (0x7FFF_FFF0u64..0x8000_0010)]);
+    (func, jd, fd, any::<bool>(), proptest::sample::select(weighted(modes)), any::<u64>(), abs_fake).prop_map(|(func, jd, fd, page, mode, salt, abs_fake)| {
         let mut jit = func.wrapping_add(5).wrapping_add(jd as u64);
         if page {
             // real trampolines are page aligned; keep the rel32 edge cases exact otherwise
             jit &= !0xFFF;
         }
         let jit = separate(func, jit.max(0x1000));
-        let fake = jit.wrapping_add(5).wrapping_add(fd as u64).max(1);
+        let fake = abs_fake.unwrap_or(jit.wrapping_add(5).wrapping_add(fd as u64).max(1));
         X86Case { func, jit, fake, mode, salt }
     })
 }
